@@ -28,10 +28,15 @@ type c16Obj struct {
 	key      string // state key of the record
 }
 
+// c16Svc4 is a service of appchain A that is not registered in the prelude: its
+// registration proposal can be pending while the appchain itself is being governed.
+const c16Svc4 = "0xB2dD6977169c5067d3729E3deB9a82c3e7502BF4"
+
 var c16Objs = map[string]*c16Obj{
 	"chainA": {"chainA", "appchain", fix.ChainA, constant.AppchainMgrContractAddr, "appchain-" + fix.ChainA},
 	"svcA1":  {"svcA1", "service", fix.ChainA + ":" + fix.Svc1, constant.ServiceMgrContractAddr, "service-" + fix.ChainA + ":" + fix.Svc1},
 	"svcA3":  {"svcA3", "service", fix.ChainA + ":" + fix.Svc3, constant.ServiceMgrContractAddr, "service-" + fix.ChainA + ":" + fix.Svc3},
+	"svcA4":  {"svcA4", "service", fix.ChainA + ":" + c16Svc4, constant.ServiceMgrContractAddr, "service-" + fix.ChainA + ":" + c16Svc4},
 	"svcB2":  {"svcB2", "service", fix.ChainB + ":" + fix.Svc2, constant.ServiceMgrContractAddr, "service-" + fix.ChainB + ":" + fix.Svc2},
 }
 
@@ -52,6 +57,9 @@ var c16Edges = func() map[string][]c16Edge {
 	for _, s := range []string{"available", "frozen", "updating", "freezing", "activating"} {
 		svc = append(svc, c16Edge{s, "pause", "cascade:pause"})
 	}
+	svc = append(svc, c16Edge{"none", "registering", "submit:register"}, c16Edge{"registering", "available", "approve"},
+		c16Edge{"registering", "pause", "approve"}, c16Edge{"registering", "unavailable", "reject"}, c16Edge{"registering", "pause", "cascade:pause"},
+		c16Edge{"unavailable", "registering", "submit:register"})
 	svc = append(svc, c16Edge{"pause", "available", "cascade:unpause"}, c16Edge{"pause", "logouting", "submit:logout"},
 		c16Edge{"pause", "forbidden", "cascade:clear"}, c16Edge{"logouting", "forbidden", "cascade:clear"})
 	return map[string][]c16Edge{"appchain": common, "service": svc}
@@ -66,6 +74,7 @@ type c16Inst struct {
 	status   map[string]string // last observed status per object
 	last     *c16Step
 	restarts int
+	regOpen  string // id of the pending registration proposal of service A:s4 ("" = none)
 }
 
 type c16Open struct {
@@ -161,6 +170,9 @@ func (in *c16Inst) apply(op string) bool {
 			src, dst = "svcB2", "svcA1"
 			k = fix.KB
 		}
+		if f[1] == "p5" {
+			src = "svcA4"
+		}
 		st.probe, st.probeIdx = p, idx
 		switch {
 		case !c16Available[st.before[src]]:
@@ -174,6 +186,26 @@ func (in *c16Inst) apply(op string) bool {
 		if st.res.Receipts[0].IsSuccess() {
 			in.nextReq[p.name]++
 		}
+	case "regsvc4": // submit the registration of A:s4 (a second, independent proposal)
+		if in.regOpen != "" || st.before["svcA4"] != "none" {
+			return false
+		}
+		st.res = w.Block(w.RegisterServiceTx(fix.KA, fix.ChainA, c16Svc4, ""))
+		st.target, st.trigger = "svcA4", "submit:register"
+		if rc := st.res.Receipts[0]; rc.IsSuccess() {
+			st.accepted = true
+			in.regOpen = fix.ProposalID(rc)
+		}
+	case "concludereg": // concludereg:approve|reject
+		if in.regOpen == "" {
+			return false
+		}
+		for i := 0; i < 3; i++ {
+			st.res = w.Block(w.VoteTx(i, in.regOpen, f[1]))
+		}
+		st.target, st.trigger, st.accepted = "svcA4", f[1], true
+		st.desc = op + " (registration of svcA4)"
+		in.regOpen = ""
 	case "restart":
 		if in.restarts >= 2 {
 			return false
@@ -245,8 +277,13 @@ func (in *c16Inst) check(c *mc.Ctx, path []string) {
 			want = "activating"
 		case "submit:logout":
 			want = "logouting"
+		case "submit:register":
+			want = "registering"
 		case "approve":
 			want = map[string]string{"freezing": "frozen", "activating": "available", "logouting": "forbidden"}[from]
+			if from == "registering" {
+				want = "" // available, or paused when the owning appchain is not available: judged by the invariant below
+			}
 		}
 		if want != "" && to != want {
 			bad("wrong-status-after-step|"+o.kind+"|"+st.trigger+"|"+from+"->"+to, "%s should be %s after %s (was %s), it is %s", st.target, want, st.trigger, from, to)
@@ -261,6 +298,15 @@ func (in *c16Inst) check(c *mc.Ctx, path []string) {
 						bad("service-usable-after-appchain-"+map[string]string{"freezing": "freeze", "logouting": "logout"}[from], "appchain A is now %s but its service %s is still %s", to, sn, s)
 					}
 				}
+			}
+		}
+	}
+	// an appchain that is frozen or logged out has no usable service, whatever the order in
+	// which its own and its services' proposals concluded
+	if ca := after["chainA"]; ca == "frozen" || ca == "forbidden" {
+		for _, sn := range []string{"svcA1", "svcA3", "svcA4"} {
+			if c16Available[after[sn]] {
+				bad("service-usable-on-unavailable-appchain|"+ca, "appchain A is %s but its service %s is %s", ca, sn, after[sn])
 			}
 		}
 	}
@@ -341,8 +387,11 @@ func (in *c16Inst) key() string {
 			cs = append(cs, l[:strings.Index(l, "=")]+"="+l[i+10:i+10+j])
 		}
 	}
+	if in.regOpen != "" {
+		op += "|reg-open"
+	}
 	used := ""
-	for _, p := range []string{"p1", "p3"} {
+	for _, p := range []string{"p1", "p3", "p5"} {
 		if in.nextReq[p] > 0 {
 			used += p
 		}
@@ -357,7 +406,7 @@ func C16(c *mc.Ctx) {
 			ops = append(ops, "sub:"+o+":"+e)
 		}
 	}
-	ops = append(ops, "conclude:approve", "conclude:reject", "probe:p1", "probe:p3", "restart")
+	ops = append(ops, "conclude:approve", "conclude:reject", "probe:p1", "probe:p3", "restart", "regsvc4", "concludereg:approve", "concludereg:reject", "probe:p5")
 	depth := 7
 	if c.Quick() {
 		depth = 6
